@@ -19,16 +19,28 @@ from .annot import calls_to, update_guards
 from .triggers import notify_last, trigger_rules
 
 
-def scale_derived(expr: ast.expr, f, depth: int = 0) -> bool:
+def scale_derived(expr: ast.expr, f, depth: int = 0, P=None) -> bool:
     txt = norm(expr)
     if ".scale[1:]" in txt or ".scale [1:]" in txt:
         return True
+    if isinstance(expr, ast.Subscript) and norm(expr.slice) == "1:" and depth < 4:
+        base = expr.value
+        if isinstance(base, ast.Name):
+            defs = [s for s in ast.walk(f.node) if isinstance(s, ast.Assign) and any(isinstance(t, ast.Name) and t.id == base.id for t in s.targets)]
+            return bool(defs) and all(norm(d.value).endswith(".scale") for d in defs)
+    if isinstance(expr, ast.Call) and call_name(expr) == "tuple" and expr.args:
+        return scale_derived(expr.args[0], f, depth + 1, P)
+    if P is not None and isinstance(expr, ast.Call) and isinstance(expr.func, ast.Attribute) and norm(expr.func.value) == "self" and f.cls is not None and depth < 3:
+        m = P.lookup_method(f.cls.qname, expr.func.attr)
+        if m is not None:
+            rets = [r for r in ast.walk(m.node) if isinstance(r, ast.Return) and r.value is not None and norm(r.value) != "None"]
+            return bool(rets) and all(scale_derived(r.value, m, depth + 1, P) for r in rets)
     if isinstance(expr, ast.Name):
         defs = [s for s in ast.walk(f.node) if isinstance(s, ast.Assign) and any(isinstance(t, ast.Name) and t.id == expr.id for t in s.targets)]
-        return bool(defs) and all(scale_derived(d.value, f, depth + 1) for d in defs) if depth < 3 else False
+        return bool(defs) and all(scale_derived(d.value, f, depth + 1, P) for d in defs) if depth < 3 else False
     if isinstance(expr, ast.IfExp):
         # None if scale is None else tuple(scale[1:])
-        return scale_derived(expr.orelse, f, depth + 1) or scale_derived(expr.body, f, depth + 1)
+        return scale_derived(expr.orelse, f, depth + 1, P) or scale_derived(expr.body, f, depth + 1, P)
     return False
 
 
@@ -67,20 +79,29 @@ def run(P: Program, R: Report, tier: str) -> None:
         for m, c in callers:
             idx = km.params.index(sp.id) - 1
             arg = c.args[idx] if idx < len(c.args) else next((k.value for k in c.keywords if k.arg == sp.id), None)
-            R.check(arg is not None and scale_derived(arg, m), "R08.3", m, c,
+            R.check(arg is not None and scale_derived(arg, m, 0, P), "R08.3", m, c,
                     f"{m.short} passes the voxel spacing (tracks.scale[1:]) to the kernel",
                     f"call `{norm(c)[:90]}` " + ("does not pass the spacing: the kernel falls back to its default and measures in pixels" if arg is None else f"passes `{norm(arg)}`"),
                     via="dataflow")
     else:
-        R.check(scale_derived(sp, km), "R08.3", km, kc, "the kernel's spacing is tracks.scale without the time axis",
+        R.check(scale_derived(sp, km, 0, P), "R08.3", km, kc, "the kernel's spacing is tracks.scale without the time axis",
                 f"spacing is `{norm(sp)}`", via="dataflow")
-    upd = ann.methods["update"]
-    src = norm(upd.node)
-    ok = "self.tracks.get_time(node)" in src and "self.tracks.segmentation[time]" in src and "np.where(seg_frame == node, node, 0)" in src
-    # tolerate renamed locals: time of the action's node, frame at that time, mask by equality with the node
-    if not ok:
-        t_defs = [s for s in ast.walk(upd.node) if isinstance(s, ast.Assign) and "get_time(" in norm(s.value)]
-        m_defs = [s for s in ast.walk(upd.node) if isinstance(s, ast.Assign) and "np.where(" in norm(s.value) and "==" in norm(s.value)]
-        ok = bool(t_defs) and bool(m_defs) and "action.node" in src
-    R.check(ok, "R08.3", upd, upd.node, "the incremental path masks the node's own frame with the node's own id", src[:120], via="syntax")
+    # the incremental path masks the node's own frame with the node's own id (possibly in a helper)
+    from ..resolve import Resolver
+
+    found = []
+    for m in ann.methods.values():
+        rs = Resolver(P, m)
+        for c in ast.walk(m.node):
+            if isinstance(c, ast.Call) and call_name(c) == "where" and len(c.args) == 3 and isinstance(c.args[0], ast.Compare):
+                cmp_ = c.args[0]
+                found.append((m, c, rs.text(cmp_.left), rs.text(cmp_.comparators[0]), rs.text(c.args[1]), rs.text(c.args[2])))
+    if not found:
+        R.undecided("R08.3", ann.methods["update"], ann.node, "the incremental path masks the node's frame with np.where", "no np.where(frame == node, node, 0) found")
+    for m, c, left, right, keep, other in found:
+        node_txt = right
+        good = ("segmentation[" in left and f"get_time({node_txt})" in left and keep == node_txt and other == "0") or (
+            "segmentation[" in left and "get_time(action.node)" in left and right == "action.node")
+        R.check(good, "R08.3", m, c, "the incremental path masks the node's own frame with the node's own id",
+                f"mask is np.where({left} == {right}, {keep}, {other})", via="provenance")
     update_guards(P, R, ann, "R08.4")
